@@ -3,7 +3,7 @@
    level of their encoded bytes (V = bytes, mar/unm the identity); AES, md5 and the codec's
    encoding of the Encrypt envelope are LIBRARY behaviour: their values on this case are tables
    the harness computed by calling goutil.AESEncrypt/AESDecrypt, md5 and codec.Marshal directly.
-   case inputs  = (sKIND (xVERC xVERS) mSECURE mACCEPT mHANDLER sHANDLER-OK xARG xRES xZERO-ARG xZERO-RES
+   case inputs  = (sKIND (xVERC xVERS) mSECURE mACCEPT mHANDLER (sHANDLER-KIND sHANDLER-RETURN) xARG xRES xZERO-ARG xZERO-RES
                    ((sWHO xPLAIN xCIPHER) ...) ((sWHO xCIPHER optPLAIN) ...) ((xVER xCIPHER xWIRE) ...))
    observations = call: (mREQ-SECURE optREQ-BODY nHANDLER optHANDLER-ARG mREP-SECURE optREP-BODY sSTATUS optRESULT)
                   push: (mREQ-SECURE optREQ-BODY nHANDLER optHANDLER-ARG sSTATUS)                       *)
@@ -67,10 +67,11 @@ Definition status_sym (s : status) : val :=
   match s with
   | SOk => vsym "ok" | SBadMessage => vsym "badmessage" | SServerPlugin => vsym "serverplugin"
   | SClientPlugin => vsym "clientplugin" | SHandler => vsym "handler" | SWrite => vsym "write"
+  | SInternal => vsym "code500"
   end.
 
 (* raw family:
-   (sraw sKIND xVERS mSECURE mACCEPT mHANDLER sHANDLER-OK xBODY xRES xZERO-ARG
+   (sraw sKIND xVERS mSECURE mACCEPT mHANDLER (sHANDLER-KIND sHANDLER-RETURN) xBODY xRES xZERO-ARG
          (xBODY snone|(ssome xVER xCIPHER))         codec: the body decoded as an Encrypt
          snone|(ssome xARG)                          codec: the body decoded into the handler's binder
          ()|((xCIPHER optPLAIN snone|(ssome xARG)))  AESDecrypt with the server's key, and its decoding
@@ -82,7 +83,7 @@ Definition pair_of (v : val) : option (option (bytes * bytes)) :=
   | _ => if sym_eqb v "none" then Some None else None
   end.
 
-Definition run_raw (kind : val) (vers : bytes) (xs xa xh : marker) (hok : bool)
+Definition run_raw (kind : val) (vers : bytes) (xs xa xh : marker) (hk : hkind) (hr : hret)
                    (body res za : bytes) (unw : option (bytes * bytes)) (plain : option bytes)
                    (dec1 : option (bytes * option bytes * option bytes))
                    (resct verw ctw wirew : bytes) : val :=
@@ -100,7 +101,7 @@ Definition run_raw (kind : val) (vers : bytes) (xs xa xh : marker) (hok : bool)
   let encf := fun (_ : bool) (p : bytes) => if bytes_eqb p res then resct else [] in
   let wrapf := fun v c : bytes => if bytes_eqb v verw && bytes_eqb c ctw then Some wirew else None in
   let unwrapf := fun w : bytes => if bytes_eqb w body then unw else None in
-  let h := mkHandler bytes (fun _ => res) hok xh in
+  let h := mkHandler bytes (fun _ => res) hk hr xh in
   if sym_eqb kind "call" then
     let o := serve_call bool bytes za (fun v => Some v) unm encf decf (fun _ => vers) wrapf unwrapf
                         false xs xa body h in
@@ -110,9 +111,14 @@ Definition run_raw (kind : val) (vers : bytes) (xs xa xh : marker) (hok : bool)
     let a := serve_push bool bytes za unm decf (fun _ => vers) unwrapf false xs xa body in
     VL [VN (match a with Some _ => 1 | None => 0 end); vopt a].
 
-Definition run (inp : val) : option val :=
+Definition hkind_of (v : val) : hkind :=
+  if sym_eqb v "func" then KFunc else if sym_eqb v "unknown" then KUnknown else KStruct.
+Definition hret_of (v : val) : hret :=
+  if sym_eqb v "err" then RetErr else if sym_eqb v "okobj" then RetOkObj else RetNil.
+
+Definition run_one (inp : val) : option val :=
   match inp with
-  | VL [tag; kind; VB vers; ms; ma; mh; hok; VB body; VB res; VB za; VL [VB _; uw]; pl; VL dl; VB resct;
+  | VL [tag; kind; VB vers; ms; ma; mh; VL [hk; hr]; VB body; VB res; VB za; VL [VB _; uw]; pl; VL dl; VB resct;
         VL [VB verw; VB ctw; VB wirew]] =>
       if sym_eqb tag "raw" then
         match marker_of ms, marker_of ma, marker_of mh, pair_of uw, marker_of pl with
@@ -127,20 +133,20 @@ Definition run (inp : val) : option val :=
                         | _ => None
                         end in
             match dec1 with
-            | Some d => Some (run_raw kind vers xs xa xh (sym_eqb hok "true") body res za unw plain d
+            | Some d => Some (run_raw kind vers xs xa xh (hkind_of hk) (hret_of hr) body res za unw plain d
                                       resct verw ctw wirew)
             | None => None
             end
         | _, _, _, _, _ => None
         end
       else None
-  | VL [kind; VL [VB verc; VB vers]; ms; ma; mh; hok; VB arg; VB res; VB za; VB zr; VL et; VL dt; VL wt] =>
+  | VL [kind; VL [VB verc; VB vers]; ms; ma; mh; VL [hk; hr]; VB arg; VB res; VB za; VB zr; VL et; VL dt; VL wt] =>
       match marker_of ms, marker_of ma, marker_of mh, enc_tab et, dec_tab dt, wrap_tab wt with
       | Some xs, Some xa, Some xh, Some etab, Some dtab, Some wtab =>
           let keyver := fun k : bool => if k then verc else vers in
           let q := mkReq bytes xs xa arg in
           if sym_eqb kind "call" then
-            let h := mkHandler bytes (fun _ => res) (sym_eqb hok "true") xh in
+            let h := mkHandler bytes (fun _ => res) (hkind_of hk) (hret_of hr) xh in
             let o := call_flow bool bytes za zr (fun v => Some v) (fun b => Some b)
                                (enc_of etab) (dec_of dtab) keyver (wrap_of wtab) (unwrap_of wtab)
                                true false q h in
@@ -159,6 +165,22 @@ Definition run (inp : val) : option val :=
                       (if p_sent _ o then vsym "ok" else vsym "write")])
       | _, _, _, _, _, _ => None
       end
+  | _ => None
+  end.
+
+(* a session: (sseq MESSAGE-CASE ...) -> (OBSERVATION ...).  Every message is run on its own: the
+   model serves each message from a copy of the (empty) session swap (C17_message_flags_do_not_leak),
+   so a session is the list of its messages' single results - which is what the implementation must
+   show, message after message, on ONE session (and on a session re-established by a redial). *)
+Fixpoint run_all (l : list val) : option (list val) :=
+  match l with
+  | [] => Some []
+  | m :: r => match run_one m, run_all r with Some o, Some t => Some (o :: t) | _, _ => None end
+  end.
+
+Definition run (inp : val) : option val :=
+  match inp with
+  | VL (t :: ms) => if sym_eqb t "seq" then option_map VL (run_all ms) else run_one inp
   | _ => None
   end.
 
